@@ -311,11 +311,20 @@ func genInst(o DocOpts) *rapid.Generator[Inst] {
 		in.Vel = opt(t, "vel", o.Settings, rapid.SampledFrom(theory.Dynamics))
 		in.Meter = opt(t, "meter", o.Settings, genMeter)
 		in.Key = opt(t, "key", o.Settings, rapid.SampledFrom(theory.ListedKeys))
+		if in.Key != nil && in.Chord == nil && coin(t, "key-only-on-rest", 50) {
+			// a rest whose only job is to carry the modulation
+			in.BPM, in.Vel, in.Meter = nil, nil, nil
+		}
 		if coin(t, "meta", o.Meta) {
 			in.Txt = map[string]string{}
-			for _, k := range []string{"txt", "lic", "mrk"} {
-				if v := opt(t, k, 50, genText); v != nil {
-					in.Txt[k] = *v
+			if coin(t, "single-text", 40) {
+				k := rapid.SampledFrom([]string{"txt", "lic", "mrk"}).Draw(t, "which-text")
+				in.Txt[k] = genText.Draw(t, k)
+			} else {
+				for _, k := range []string{"txt", "lic", "mrk"} {
+					if v := opt(t, k, 50, genText); v != nil {
+						in.Txt[k] = *v
+					}
 				}
 			}
 			if coin(t, "othermeta", 15) {
